@@ -18,6 +18,14 @@ def plan(ctx):
 
 def run(ctx):
     res = sf.run_store(ctx, "C02", CTORS, plan(ctx))
+    from . import c05
+    viol, n, ev, vst = c05.side_check(ctx, "C02", "P:C05:member-throughout", "P:C02:populate-rank-mirror")
+    res["violations"] += viol
+    res["traces"] += n
+    res["evaluations"] += ev
+    res["states"] += vst["distinct"]
+    res["transitions"] += vst["generated"]
+    res["scope"]["populate_programs"] = n
     res["assumptions"] = ["constructors covered: empty+insertions, fromFiber, setRoot, fromUncompressed, fromYAMLfile, deepcopy, swizzle round trip "
                           "(other transform results are judged by C09's result-wf clause with the same RankMirror predicate)",
                           "order of fibers inside a rank list is not constrained",
@@ -26,4 +34,7 @@ def run(ctx):
 
 
 def replay(ctx, rec):
+    if rec.get("pop"):
+        from . import c05
+        return c05.replay(ctx, rec)
     return sf.replay_store(ctx, rec, "C02")
